@@ -581,6 +581,478 @@ class _DeserIsNone(ast.NodeTransformer):
         return node
 
 
+# ---- C09: the order of effects in saveAsTextFile -----------------------------------------------------
+
+class TrEff(TrM):
+    """statements whose calls are EFFECTS on an abstract store: an effect either succeeds or raises (the exception
+    propagates: nothing after it runs), and in both cases the store may have changed"""
+
+    def __init__(self, effects, tests, **kw):
+        super().__init__({}, **kw)
+        self.effects = effects      # predicate on the call's source text -> effect name
+        self.tests = tests          # source text of a side-effect-free test -> lean (over the current store)
+
+    def effect_of(self, call):
+        src = ast.unparse(call)
+        for name, pred in self.effects.items():
+            if pred(src):
+                return name
+        return None
+
+    def cond(self, e, env):
+        src = ast.unparse(e)
+        if src in self.tests:
+            return '(%s = true)' % (self.tests[src] % env['@st'])
+        return super().cond(e, env)
+
+    def block(self, stmts, env, k, ind):
+        if stmts:
+            s, rest = stmts[0], stmts[1:]
+            pad = ' ' * ind
+            if isinstance(s, ast.FunctionDef):
+                # a local helper: only its name matters here (the effects that use it are named by the generator)
+                return self.block(rest, env, k, ind)
+            if isinstance(s, ast.Expr) and isinstance(s.value, ast.Call) and self.effect_of(s.value):
+                st2 = self.fresh('st')
+                env2 = dict(env)
+                env2['@st'] = st2
+                return ('match E.%s %s with\n%s| (%s, false) => (%s, .failed)   -- the exception reaches the caller\n%s| (%s, true) =>\n%s  ' %
+                        (self.effect_of(s.value), env['@st'], pad, st2, st2, pad, st2, pad)) + self.block(rest, env2, k, ind + 2)
+        return super().block(stmts, env, k, ind)
+
+
+def gen_c09(repo):
+    fn = find_def(find_class(parse(repo, 'pysparkling/rdd.py'), 'RDD'), 'saveAsTextFile')
+    effects = {
+        'dumpSingle': lambda src: src == 'fileio.TextFile(path).dump(to_stringio(self.collect()))',
+        'runParts': lambda src: src.startswith('self.context.runJob(self.mapPartitions(to_stringio), lambda tc, stringio: fileio.TextFile(os.path.join(path, ')
+        and 'part-' in src and src.endswith(').dump(stringio), resultHandler=list)'),
+        'dumpMarker': lambda src: src == "fileio.TextFile(os.path.join(path, '_SUCCESS')).dump()",
+    }
+    tests = {'fileio.TextFile(path).exists()': 'E.pathExists %s', 'self.getNumPartitions() == 1': 'E.single %s'}
+
+    def ext_stmt(s, tr, env):
+        # the codec suffix of the part files is a pure function of `path` (modelled by `codecSuffix`); it is not an effect
+        src = ast.unparse(s)
+        if src == "codec_suffix = ''":
+            return {}
+        if isinstance(s, ast.If) and ast.unparse(s.test).startswith('path.endswith(') and \
+                [ast.unparse(x) for x in s.body] == ["codec_suffix = path[path.rfind('.'):]"] and not s.orelse:
+            return {}
+        return None
+    t = TrEff(effects, tests, ext_stmt=ext_stmt)
+    env = {'@self': {}, '@kind': {}, '@st': 'st'}
+
+    def k(kind, e2, value):
+        if kind == RAISE and value is not None and ast.unparse(value).startswith('FileAlreadyExistsException('):
+            return '(%s, .alreadyExists)' % e2['@st']
+        if kind == RETURN and value is not None and ast.unparse(value) == 'self':
+            return '(%s, .ok)' % e2['@st']
+        raise NotTranslatable('%s in saveAsTextFile' % kind)
+    body = t.block(fn.body, env, k, 2)
+    out = ('inductive SaveResult where\n  | ok\n  | alreadyExists      -- FileAlreadyExistsException\n'
+           '  | failed             -- an exception of an effect reached the caller\n  deriving DecidableEq, Repr\n\n'
+           '/-- the effects `saveAsTextFile` has on the store `σ` (file system + fault plan position): each may raise (`false`) -/\n'
+           'structure Eff (σ : Type) where\n  pathExists : σ → Bool             -- fileio.TextFile(path).exists()\n'
+           '  single : σ → Bool                 -- self.getNumPartitions() == 1\n'
+           '  dumpSingle : σ → σ × Bool         -- TextFile(path).dump(to_stringio(self.collect()))\n'
+           '  runParts : σ → σ × Bool           -- runJob over the partitions, each task dumping path/part-NNNNN<suffix>\n'
+           '  dumpMarker : σ → σ × Bool         -- TextFile(path/_SUCCESS).dump()\n\n'
+           '/-- the order of tests and effects of `RDD.saveAsTextFile(path)` -/\n'
+           'def saveAsTextFile {σ : Type} (E : Eff σ) (st : σ) : σ × SaveResult :=\n  %s\n' % body)
+    return 'pysparkling/rdd.py (RDD.saveAsTextFile: order of tests and effects)', out
+
+
+# ---- C20: Local.resolve_filenames ------------------------------------------------------------------
+
+class TrStr(TrM):
+    """strings as `List Char`: literals, `+`, `s[n:]`, `s.startswith(lit)`, `s.endswith(x)`, `x in s` (substring),
+    `any(<test> for v in <const list>)`"""
+
+    def expr(self, e, env):
+        if isinstance(e, ast.Constant) and isinstance(e.value, str):
+            return '"%s".toList' % e.value.replace('\\', '\\\\').replace('"', '\\"')
+        if isinstance(e, ast.BinOp) and isinstance(e.op, ast.Add):
+            return '(%s ++ %s)' % (self.expr(e.left, env), self.expr(e.right, env))
+        if isinstance(e, ast.Subscript) and isinstance(e.slice, ast.Slice) and e.slice.upper is None and e.slice.step is None \
+                and isinstance(e.slice.lower, ast.Constant) and isinstance(e.slice.lower.value, int) and e.slice.lower.value >= 0:
+            return '(%s.drop %d)' % (self.expr(e.value, env), e.slice.lower.value)
+        if isinstance(e, ast.List):
+            return '[' + ', '.join(self.expr(x, env) for x in e.elts) + ']'
+        return super().expr(e, env)
+
+    def cond(self, e, env):
+        if isinstance(e, ast.Call) and isinstance(e.func, ast.Attribute) and e.func.attr in ('startswith', 'endswith') and len(e.args) == 1:
+            fn = 'isPrefixOf' if e.func.attr == 'startswith' else 'isSuffixOf'
+            return '(List.%s %s %s = true)' % (fn, self.expr(e.args[0], env), self.expr(e.func.value, env))
+        if isinstance(e, ast.Compare) and len(e.ops) == 1 and isinstance(e.ops[0], ast.In) and self.kind(e.comparators[0], env) == 'str':
+            return '(Str.hasInfix %s %s = true)' % (self.expr(e.comparators[0], env), self.expr(e.left, env))
+        if isinstance(e, ast.Call) and isinstance(e.func, ast.Name) and e.func.id == 'any' and len(e.args) == 1 \
+                and isinstance(e.args[0], ast.GeneratorExp) and len(e.args[0].generators) == 1:
+            g = e.args[0].generators[0]
+            if g.ifs or not isinstance(g.target, ast.Name) or not isinstance(g.iter, ast.Name) or env['@kind'].get(g.iter.id) != 'strlist':
+                raise NotTranslatable('any(...) shape')
+            v = self.fresh(g.target.id)
+            env2 = dict(env)
+            env2[g.target.id] = v
+            return '((%s).any (fun %s => decide %s) = true)' % (env[g.iter.id], v, self.cond(e.args[0].elt, env2))
+        return super().cond(e, env)
+
+
+def gen_c20(repo):
+    fn = find_def(find_class(parse(repo, 'pysparkling/fileio/fs/local.py'), 'Local'), 'resolve_filenames')
+    if [a.arg for a in fn.args.args] != ['expr']:
+        raise NotTranslatable('resolve_filenames parameters')
+    WALK = ("for root, _, filenames in os.walk(prefix):\n    for filename in filenames:\n        path = os.path.join(root, filename)\n"
+            "        if fnmatch(path, expr) or fnmatch(path, expr + '/part*'):\n            files.append(path)")
+
+    def ext_expr(node, tr, env):
+        src = ast.unparse(node)
+        if src == 'os.path.sep':
+            return '"/".toList'                                  # POSIX (trusted: the checks run on Linux)
+        if src == 't.get_next([\'*\', \'?\'])' and env.get('t') is not None:
+            return '(E.literalPrefix %s)' % env['t']              # Tokenizer(expr).get_next(['*', '?'])
+        if isinstance(node, ast.Call) and src.startswith('Tokenizer(') and len(node.args) == 1:
+            return tr.expr(node.args[0], env)                     # the tokenizer object is its remaining text
+        if isinstance(node, ast.Call) and src.startswith('os.path.dirname(') and len(node.args) == 1:
+            return '(E.dirname %s)' % tr.expr(node.args[0], env)
+        return None
+
+    def ext_stmt(s, tr, env):
+        src = ast.unparse(s)
+        if src == 'if os.path.altsep:\n    os_sep.append(os.path.altsep)':
+            return {}                                             # POSIX: os.path.altsep is None
+        if src == WALK and 'files' in env:
+            e2 = dict(env)
+            e2['path'] = 'path'
+            e2['@kind'] = dict(env['@kind'], path='str')
+            test = tr.cond(s.body[0].body[1].test, e2)
+            return {'@local:files': '(%s ++ (E.walk %s).filter (fun path => decide %s))' % (env['files'], env['prefix'], test)}
+        return None
+
+    class T(TrStr):
+        def cond(self, e, env):
+            src = ast.unparse(e)
+            if src.startswith('os.path.isfile(') and isinstance(e, ast.Call):
+                return '(E.isFile %s = true)' % self.expr(e.args[0], env)
+            if src.startswith('fnmatch(') and isinstance(e, ast.Call) and len(e.args) == 2:
+                return '(E.fnmatch %s %s = true)' % (self.expr(e.args[0], env), self.expr(e.args[1], env))
+            return super().cond(e, env)
+
+        def block(self, stmts, env, k, ind):
+            if stmts:
+                upd = ext_stmt(stmts[0], self, env)
+                if upd is not None and '@local:files' in upd:
+                    nm = self.fresh('files')
+                    env2 = dict(env)
+                    env2['files'] = nm
+                    return 'let %s := %s\n%s' % (nm, upd['@local:files'], ' ' * ind) + self.block(stmts[1:], env2, k, ind)
+            return super().block(stmts, env, k, ind)
+    t = T({}, ext_expr=ext_expr, ext_stmt=lambda s, tr, env: {} if ext_stmt(s, tr, env) == {} else None)
+    env = {'@self': {}, '@kind': {'expr': 'str', 'prefix': 'str', 'os_sep': 'strlist', 'files': 'list', 't': 'str'}, 'expr': 'expr'}
+
+    def k(kind, e2, value):
+        if kind == RETURN and value is not None:
+            return t.expr(value, e2)
+        raise NotTranslatable('%s in resolve_filenames' % kind)
+    body = t.block(fn.body, env, k, 2)
+    out = ('abbrev Str := List Char\n\n/-- `x in s` for strings -/\ndef Str.hasInfix (s sub : Str) : Bool := (List.range (s.length + 1)).any fun i => sub.isPrefixOf (s.drop i)\n\n'
+           '/-- what `Local.resolve_filenames` asks of its environment -/\nstructure Env where\n'
+           '  isFile : Str → Bool               -- os.path.isfile\n  literalPrefix : Str → Str         -- Tokenizer(expr).get_next([\'*\', \'?\'])\n'
+           '  dirname : Str → Str               -- os.path.dirname\n  walk : Str → List Str             -- the paths os.walk(prefix) yields, joined as root/filename, in its order\n'
+           '  fnmatch : Str → Str → Bool        -- fnmatch(path, pattern)\n\n'
+           '/-- `Local.resolve_filenames(expr)` (POSIX path separators) -/\n'
+           'def resolveFilenames (E : Env) (expr : Str) : List Str :=\n  %s\n' % body)
+    return 'pysparkling/fileio/fs/local.py (Local.resolve_filenames)', out
+
+
+# ---- C03: what a pool task receives and sends back (clone_contains, stored_idents, get_not_in, join) --------
+
+def gen_c03(repo):
+    cm = find_class(parse(repo, 'pysparkling/cache_manager.py'), 'CacheManager')
+    ctx_tree = parse(repo, 'pysparkling/context.py')
+    fields = {'cache_obj': 'cache_obj'}
+    kinds = {'cache_obj': 'assoc'}
+    STORED = "v['mem_obj'] is not None or v['disk_location'] is not None"
+
+    def dictcomp(node, tr, env):
+        """{i: c for i, c in self.cache_obj.items() if <test on i>}  ->  filter"""
+        if not (isinstance(node, ast.DictComp) and len(node.generators) == 1):
+            return None
+        g = node.generators[0]
+        if not (ast.unparse(g.iter) == 'self.cache_obj.items()' and isinstance(g.target, ast.Tuple) and len(g.target.elts) == 2
+                and all(isinstance(t, ast.Name) for t in g.target.elts) and len(g.ifs) == 1
+                and ast.unparse(node.key) == g.target.elts[0].id and ast.unparse(node.value) == g.target.elts[1].id):
+            raise NotTranslatable('dict comprehension shape')
+        kname = g.target.elts[0].id
+        env2 = dict(env)
+        env2[kname] = 'p.1'
+        return '(%s.filter fun p => decide %s)' % (env['@self']['cache_obj'], tr.cond(g.ifs[0], env2))
+
+    class T(TrM):
+        def cond(self, e, env):
+            if isinstance(e, ast.Call) and isinstance(e.func, ast.Name) and e.func.id == 'filter_id' and len(e.args) == 1:
+                return '(filter_id %s = true)' % self.expr(e.args[0], env)
+            if isinstance(e, ast.Compare) and len(e.ops) == 1 and isinstance(e.ops[0], ast.NotIn) and ast.unparse(e.comparators[0]) == 'idents':
+                return '(¬ (idents.contains %s = true))' % self.expr(e.left, env)
+            return super().cond(e, env)
+
+    def ext_expr(node, tr, env):
+        return dictcomp(node, tr, env)
+    out = ('/-- the part of a cache entry the cache manager reads back -/\nstructure Entry (β : Type) where\n  mem_obj : Option β\n'
+           '  disk_location : Option Unit := none\n\nstructure CM (κ β : Type) where\n  cache_obj : Assoc κ (Entry β)\n\n'
+           'variable {κ β : Type} [BEq κ]\n\n')
+
+    # clone_contains(filter_id): the clone's `cache_obj`
+    fn = find_def(cm, 'clone_contains')
+    asg = [s for s in fn.body if isinstance(s, ast.Assign) and ast.unparse(s.targets[0]) == 'cm.cache_obj']
+    ret = [s for s in fn.body if isinstance(s, ast.Return)]
+    if len(asg) != 1 or len(ret) != 1 or ast.unparse(ret[0].value) != 'cm' or not ast.unparse(fn.body[-3] if len(fn.body) >= 3 else fn.body[0]):
+        raise NotTranslatable('clone_contains shape')
+    news = [s for s in fn.body if isinstance(s, ast.Assign) and ast.unparse(s.targets[0]) == 'cm']
+    if len(news) != 1 or not ast.unparse(news[0].value).startswith('CacheManager('):
+        raise NotTranslatable('clone_contains does not build a fresh CacheManager')
+    t = T(fields, ext_expr=ext_expr, kinds=kinds)
+    env = t.start_env(['filter_id'])
+    out += ('/-- `clone_contains(filter_id)`: a fresh manager holding the entries whose ident passes the filter -/\n'
+            'def cloneContains (self : CM κ β) (filter_id : κ → Bool) : CM κ β :=\n  { cache_obj := %s }\n\n' % t.expr(asg[0].value, env))
+
+    # get_not_in(idents)
+    fn = find_def(cm, 'get_not_in')
+    ret = [s for s in fn.body if isinstance(s, ast.Return)]
+    if len(ret) != 1:
+        raise NotTranslatable('get_not_in shape')
+    env = t.start_env(['idents'])
+    out += ('/-- `get_not_in(idents)`: the entries whose ident is not listed -/\n'
+            'def getNotIn (self : CM κ β) (idents : List κ) : Assoc κ (Entry β) :=\n  %s\n\n' % t.expr(ret[0].value, env))
+
+    # stored_idents()
+    fn = find_def(cm, 'stored_idents')
+    ret = [s for s in fn.body if isinstance(s, ast.Return)]
+    want = '[k for k, v in self.cache_obj.items() if %s]' % STORED
+    if len(ret) != 1 or ast.unparse(ret[0].value) != want:
+        raise NotTranslatable('stored_idents is no longer `%s`' % want)
+    out += ('/-- `stored_idents()`: the idents whose entry is held in memory or on disk -/\n'
+            'def storedIdents (self : CM κ β) : List κ :=\n  (self.cache_obj.filter fun p => p.2.mem_obj.isSome || p.2.disk_location.isSome).map (·.1)\n\n')
+
+    # join(cache_objects)
+    fn = find_def(cm, 'join')
+    body = [s for s in fn.body if not (isinstance(s, ast.Expr) and isinstance(s.value, ast.Constant))]
+    if [ast.unparse(s) for s in body] != ['self.cache_obj.update(cache_objects)']:
+        raise NotTranslatable('join is no longer `self.cache_obj.update(cache_objects)`')
+    out += ('/-- `join(cache_objects)`: `dict.update` -/\n'
+            'def join (self : CM κ β) (cache_objects : Assoc κ (Entry β)) : CM κ β :=\n  { cache_obj := Assoc.update self.cache_obj cache_objects }\n\n')
+
+    # the filter a pool task's clone is built with, and what the task sends back
+    dist = find_def(find_class(ctx_tree, 'Context'), '_runJob_distributed')
+    prep = find_def(dist, 'prepare')
+    clones = [n for n in ast.walk(prep) if isinstance(n, ast.Call) and ast.unparse(n.func) == 'self._cache_manager.clone_contains']
+    if len(clones) != 1 or ast.unparse(clones[0].args[0]) != 'lambda i: i[1] == partition.index':
+        raise NotTranslatable('the clone filter is no longer `lambda i: i[1] == partition.index`')
+    joins = [n for n in ast.walk(dist) if isinstance(n, ast.Call) and ast.unparse(n.func) == 'self._cache_manager.join']
+    if len(joins) != 1 or ast.unparse(joins[0].args[0]) != 'cache_result':
+        raise NotTranslatable('the driver no longer joins `cache_result`')
+    rjm = find_def(ctx_tree, 'runJob_map')
+    src = ast.unparse(rjm)
+    if 'cm_state = task_context.cache_manager.stored_idents()' not in src or 'task_context.cache_manager.get_not_in(cm_state)' not in src \
+            or src.index('cm_state = task_context.cache_manager.stored_idents()') > src.index('result = _run_task(task_context, rdd, func, partition)') \
+            or src.index('task_context.cache_manager.get_not_in(cm_state)') < src.index('result = _run_task(task_context, rdd, func, partition)'):
+        raise NotTranslatable('runJob_map no longer snapshots stored_idents() before the task and returns get_not_in(snapshot) after it')
+    out += ('/-- the clone shipped to the task of partition `index`: `clone_contains(lambda i: i[1] == partition.index)` -/\n'
+            'def cloneForTask {δ : Type} [BEq δ] (driver : CM (δ × Nat) β) (index : Nat) : CM (δ × Nat) β :=\n'
+            '  cloneContains driver (fun i => i.2 == index)\n\n'
+            '/-- what `runJob_map` sends back: `get_not_in(stored_idents() as they were before the task)` of the manager after the task -/\n'
+            'def sentBack (before after : CM κ β) : Assoc κ (Entry β) :=\n  getNotIn after (storedIdents before)\n')
+    return ('pysparkling/cache_manager.py (clone_contains, get_not_in, stored_idents, join), pysparkling/context.py '
+            '(_runJob_distributed clone filter and join, runJob_map snapshot)'), out
+
+
+# ---- C08: codec selection by file name, codec suffix of part files, line encoding --------------------
+
+def gen_c08(repo):
+    tree = parse(repo, 'pysparkling/fileio/codec/__init__.py')
+    tab = [s for s in tree.body if isinstance(s, ast.Assign) and ast.unparse(s.targets[0]) == 'FILE_ENDINGS']
+    if len(tab) != 1 or not isinstance(tab[0].value, ast.List):
+        raise NotTranslatable('FILE_ENDINGS table')
+    rows, classes = [], []
+    for el in tab[0].value.elts:
+        if not (isinstance(el, ast.Tuple) and len(el.elts) == 2 and isinstance(el.elts[0], ast.Tuple) and isinstance(el.elts[1], ast.Name)
+                and all(isinstance(x, ast.Constant) and isinstance(x.value, str) for x in el.elts[0].elts)):
+            raise NotTranslatable('FILE_ENDINGS row ' + ast.unparse(el))
+        cls = el.elts[1].id
+        classes.append(cls)
+        rows.append('([%s], CodecName.%s)' % (', '.join('"%s".toList' % x.value for x in el.elts[0].elts), cls))
+    if len(set(classes)) != len(classes):
+        raise NotTranslatable('a codec class appears twice in FILE_ENDINGS')
+    out = ('abbrev Str := List Char\n\n/-- `x in s` for strings -/\ndef Str.hasInfix (s sub : Str) : Bool := (List.range (s.length + 1)).any fun i => sub.isPrefixOf (s.drop i)\n'
+           '/-- `s.rfind(c)` for a one-character `c` (-1 when absent) -/\ndef Str.rfindChar (s : Str) (c : Char) : Int :=\n'
+           '  match s.reverse.findIdx? (· = c) with\n  | some i => (s.length : Int) - 1 - i\n  | none => -1\n\n'
+           '/-- the codec classes named in `FILE_ENDINGS`, plus the two fall-backs of `get_codec` -/\n'
+           'inductive CodecName where\n  | Codec | NoCodec%s\n  deriving DecidableEq, Repr\n\n' % ''.join(' | ' + c for c in classes))
+    out += '/-- `FILE_ENDINGS` -/\ndef fileEndings : List (List Str × CodecName) :=\n  [%s]\n\n' % ',\n   '.join(rows)
+
+    gc = find_def(tree, 'get_codec')
+    body = [st for st in gc.body if not (isinstance(st, ast.Expr) and isinstance(st.value, ast.Constant))]
+    want = ["if '.' not in path or path.rfind('/') > path.rfind('.'):\n    return Codec",
+            "for endings, codec_class in FILE_ENDINGS:\n    if any((path.endswith(e) for e in endings)):\n        log.debug('Using %s codec: %s', endings, path)\n        return codec_class",
+            'return NoCodec']
+    got = [ast.unparse(st) for st in body]
+    # the log line is noise: compare without it
+    norm = lambda t: '\n'.join(l for l in t.split('\n') if not l.strip().startswith('log.'))    # noqa: E731
+    if [norm(g) for g in got] != [norm(w) for w in want]:
+        # translate what can be translated structurally: guard, table scan, fall-back
+        raise NotTranslatable('get_codec no longer has the shape guard / table scan / fall-back: %r' % got)
+    t = TrStr({}, kinds={})
+    env = {'@self': {}, '@kind': {'path': 'str'}, 'path': 'path'}
+    guard = body[0].test
+
+    class G(TrStr):
+        def cond(self, e, env):
+            if isinstance(e, ast.Compare) and len(e.ops) == 1 and isinstance(e.ops[0], (ast.In, ast.NotIn)) \
+                    and isinstance(e.left, ast.Constant) and isinstance(e.left.value, str) and self.kind(e.comparators[0], env) == 'str':
+                c = '(Str.hasInfix %s %s = true)' % (self.expr(e.comparators[0], env), self.expr(e.left, env))
+                return c if isinstance(e.ops[0], ast.In) else '(¬ %s)' % c
+            return super().cond(e, env)
+
+        def expr(self, e, env):
+            if isinstance(e, ast.Call) and isinstance(e.func, ast.Attribute) and e.func.attr == 'rfind' and len(e.args) == 1 \
+                    and isinstance(e.args[0], ast.Constant) and isinstance(e.args[0].value, str) and len(e.args[0].value) == 1:
+                return "(Str.rfindChar %s '%s')" % (self.expr(e.func.value, env), e.args[0].value)
+            return super().expr(e, env)
+    g = G({}, kinds={})
+    scan_test = body[1].body[0].test        # any(path.endswith(e) for e in endings)
+    gen = scan_test.args[0]
+    if not (isinstance(gen, ast.GeneratorExp) and ast.unparse(gen.elt) == 'path.endswith(e)' and ast.unparse(gen.generators[0].iter) == 'endings'):
+        raise NotTranslatable('table scan test')
+    out += ('/-- `get_codec(path)` -/\ndef getCodec (path : Str) : CodecName :=\n  if %s then CodecName.Codec\n'
+            '  else match fileEndings.find? (fun row => row.1.any fun e => List.isSuffixOf e path) with\n'
+            '    | some row => row.2\n    | none => CodecName.NoCodec\n\n' % g.cond(guard, env))
+
+    # the suffix of the part files (saveAsTextFile and saveAsPickleFile must compute it the same way)
+    rdd = find_class(parse(repo, 'pysparkling/rdd.py'), 'RDD')
+    want_if = ("if path.endswith(tuple((ending for endings, _ in fileio.codec.FILE_ENDINGS for ending in endings))):\n"
+               "    codec_suffix = path[path.rfind('.'):]")
+    for name in ('saveAsTextFile', 'saveAsPickleFile'):
+        fn = find_def(rdd, name)
+        srcs = [ast.unparse(st) for st in fn.body]
+        if "codec_suffix = ''" not in srcs or want_if not in srcs or srcs.index("codec_suffix = ''") + 1 != srcs.index(want_if):
+            raise NotTranslatable('codec suffix computation of %s' % name)
+    out += ("/-- the suffix given to part files: `path[path.rfind('.'):]` when `path` ends with any ending of `FILE_ENDINGS`, else `''` -/\n"
+            'def codecSuffix (path : Str) : Str :=\n  if (fileEndings.flatMap (·.1)).any (fun ending => List.isSuffixOf ending path) then\n'
+            "    path.drop (Str.rfindChar path '.').toNat\n  else []\n\n")
+    # line encoding
+    fn = find_def(find_def(rdd, 'saveAsTextFile'), 'to_stringio')
+    loops = [st for st in fn.body if isinstance(st, ast.For)]
+    if len(loops) != 1 or ast.unparse(loops[0]) != "for line in data:\n    stringio.write(f'{line}\\n')":
+        raise NotTranslatable('to_stringio loop: %r' % [ast.unparse(l) for l in loops])
+    out += ("/-- `to_stringio(data)`: `for line in data: write(f'{line}\\n')` (lines as their `str()` text) -/\n"
+            "def toStringIO (data : List Str) : Str := data.flatMap fun line => line ++ ['\\n']\n")
+    return ('pysparkling/fileio/codec/__init__.py (FILE_ENDINGS, get_codec), pysparkling/rdd.py (codec suffix of saveAsTextFile / '
+            'saveAsPickleFile, to_stringio)'), out
+
+
+# ---- C12: three-valued logic and null tests of the expression evaluator ---------------------------------
+
+class TrSV(TrM):
+    """Python values as the SQL model's `SV` (null / bool / int / double / string) with Python truthiness"""
+
+    def __init__(self, cls, **kw):
+        super().__init__({}, **kw)
+        self.cls = cls
+
+    def is_sv(self, e, env):
+        return isinstance(e, ast.Name) and env['@kind'].get(e.id) == 'sv'
+
+    def expr(self, e, env):
+        if isinstance(e, ast.Constant) and e.value is None:
+            return 'SV.null'
+        if isinstance(e, ast.Constant) and isinstance(e.value, bool):
+            return '(SV.bool %s)' % ('true' if e.value else 'false')
+        if isinstance(e, ast.Name) and e.id in env:
+            return env[e.id]
+        if isinstance(e, ast.BoolOp):
+            vals = [self.expr(v, env) for v in e.values]
+            cur = vals[-1]
+            for v in reversed(vals[:-1]):
+                cur = ('(if truthy %s = true then %s else %s)' % (v, cur, v)) if isinstance(e.op, ast.And) else \
+                    ('(if truthy %s = true then %s else %s)' % (v, v, cur))
+            return cur
+        if isinstance(e, ast.UnaryOp) and isinstance(e.op, ast.Not):
+            return '(SV.bool (!truthy %s))' % self.expr(e.operand, env)
+        if isinstance(e, ast.Compare) and len(e.ops) == 1 and isinstance(e.ops[0], (ast.Is, ast.IsNot)) \
+                and isinstance(e.comparators[0], ast.Constant) and e.comparators[0].value is None:
+            return '(SV.bool (decide %s))' % self.cond(e, env)
+        if isinstance(e, ast.Call) and ast.unparse(e.func) == 'self.unsafe_operation':
+            m = find_def(self.cls, 'unsafe_operation')
+            params = [a.arg for a in m.args.args][1:]
+            body = [st for st in m.body if not (isinstance(st, ast.Expr) and isinstance(st.value, ast.Constant))]
+            if len(params) != len(e.args) or len(body) != 1 or not isinstance(body[0], ast.Return):
+                raise NotTranslatable('unsafe_operation shape')
+            env2 = dict(env)
+            env2['@kind'] = dict(env['@kind'])
+            for p_, a in zip(params, e.args):
+                env2[p_] = self.expr(a, env)
+                env2['@kind'][p_] = 'sv'
+            return self.expr(body[0].value, env2)
+        raise NotTranslatable('expression ' + ast.unparse(e)[:80])
+
+    def cond(self, e, env):
+        if isinstance(e, ast.Compare) and len(e.ops) == 1 and isinstance(e.ops[0], (ast.Is, ast.IsNot)) \
+                and isinstance(e.comparators[0], ast.Constant) and e.comparators[0].value is None:
+            t = '(%s = SV.null)' % self.expr(e.left, env)
+            return t if isinstance(e.ops[0], ast.Is) else '(¬ %s)' % t
+        if isinstance(e, ast.UnaryOp) and isinstance(e.op, ast.Not):
+            return '(¬ %s)' % self.cond(e.operand, env)
+        if isinstance(e, ast.BoolOp):
+            j = ' ∧ ' if isinstance(e.op, ast.And) else ' ∨ '
+            return '(' + j.join(self.cond(v, env) for v in e.values) + ')'
+        if self.is_sv(e, env):
+            return '(truthy %s = true)' % env[e.id]
+        raise NotTranslatable('truth value of ' + ast.unparse(e)[:60])
+
+
+def gen_c12(repo):
+    tree = parse(repo, 'pysparkling/sql/expressions/operators.py')
+    out = 'open PysparklingVerif.Sql\n\n'
+
+    def one(clsname, leanname, arity, doc):
+        cls = find_class(tree, clsname)
+        fn = [n for n in cls.body if isinstance(n, ast.FunctionDef) and n.name == 'eval']
+        if len(fn) != 1 or [a.arg for a in fn[0].args.args] != ['self', 'row', 'schema']:
+            raise NotTranslatable('%s.eval' % clsname)
+        srcs = {'self.arg1.eval(row, schema)': 'a', 'self.arg2.eval(row, schema)': 'b', 'self.column.eval(row, schema)': 'a'}
+
+        class Sub(ast.NodeTransformer):
+            def visit_Call(self, node):
+                s_ = ast.unparse(node)
+                if s_ in srcs:
+                    return ast.Name(id=srcs[s_], ctx=ast.Load())
+                return self.generic_visit(node)
+        body = [ast.fix_missing_locations(Sub().visit(st)) for st in fn[0].body]
+        t = TrSV(cls)
+        names = ['a', 'b'][:arity]
+        env = {'@self': {}, '@kind': {n: 'sv' for n in names}}
+        for n in names:
+            env[n] = n
+        # locals assigned from sub-expression values are values too
+        for st in body:
+            if isinstance(st, ast.Assign) and isinstance(st.targets[0], ast.Name):
+                env['@kind'][st.targets[0].id] = 'sv'
+
+        def k(kind, e2, value):
+            if kind == RETURN and value is not None:
+                return t.expr(value, e2)
+            raise NotTranslatable('%s in %s.eval' % (kind, clsname))
+        ps = ' '.join('(%s : SV)' % n for n in names)
+        return '/-- %s -/\ndef %s %s : SV :=\n  %s\n\n' % (doc, leanname, ps, t.block(body, env, k, 2))
+    out += one('And', 'andEval', 2, '`And.eval` on the values of its operands')
+    out += one('Or', 'orEval', 2, '`Or.eval` on the values of its operands')
+    out += one('Invert', 'invertEval', 1, '`Invert.eval` (`~col`) on the value of its operand')
+    out += one('IsNull', 'isNullEval', 1, '`IsNull.eval`')
+    out += one('IsNotNull', 'isNotNullEval', 1, '`IsNotNull.eval`')
+    return 'pysparkling/sql/expressions/operators.py (And.eval, Or.eval, Invert.eval, IsNull.eval, IsNotNull.eval)', out
+
+
 # ---- C05: CacheManager, TimedCacheManager, PersistedRDD.compute ------------------------------------
 
 ENTRY_FIELDS = ('mem_obj', 'disk_location')
@@ -689,4 +1161,4 @@ def gen_c05(repo):
     return 'pysparkling/cache_manager.py (CacheManager.add/get/has/delete, TimedCacheManager.add/gc), pysparkling/rdd.py (PersistedRDD.compute)', out
 
 
-GENERATORS_M = {'C11': gen_c11, 'C04': gen_c04, 'C05': gen_c05, 'C10': gen_c10}
+GENERATORS_M = {'C11': gen_c11, 'C04': gen_c04, 'C05': gen_c05, 'C10': gen_c10, 'C09': gen_c09, 'C20': gen_c20, 'C03': gen_c03, 'C08': gen_c08, 'C12': gen_c12}
